@@ -62,6 +62,7 @@ class Block:
         self.ats = []             # (anchor, where, nth, [(text,tline)])
         self.dropstmts = []
         self.entry = []
+        self.attrs = []
         self.stmts = {}
         self.loopstart = {}
         self.loopend = {}       # anchors of statements to drop (logged)
@@ -121,6 +122,8 @@ def parse_template(path):
             pr = BT.findall(rest)
             kv, _ = parse_kv(BT.sub('', rest).replace('=>', ''))
             cur.substs.append((pr[0], pr[1], kv.get('rule', 'S')))
+        elif word == 'attr':
+            cur.attrs.append(rest)
         elif word == 'param':
             nm, ty = rest.split(':', 1)
             cur.params[nm.strip()] = ty.strip()
@@ -486,7 +489,7 @@ def extract_type(repo, blk, meta):
     t = text(item)
     if 'as' in kv:
         t = re.sub(r'^(struct|enum)\s+%s\b' % re.escape(kv['name']), r'\1 ' + kv['as'], t)
-    t = 'pub ' + t
+    t = ''.join(a + '\n' for a in blk.attrs) + 'pub ' + t
     # make fields pub so spec functions can read them
     if kv['kind'] == 'struct':
         t = re.sub(r'(?m)^(\s+)([a-z_][A-Za-z0-9_]*\s*:)', r'\1pub \2', t)
